@@ -228,9 +228,10 @@ def gen_arg(rng, S):
 #  2. the root-level filter of `cse` looks only at the first exprlist of a candidate, so `[c d]` at root level is
 #     replaced by one axis and stage 3 fails its `ndim` assertion.
 # Any *other* real call that does not meet the side conditions is a broken tie (premise of the theorem not established).
+# The value is the list of parts of `cseCheckReduced` that fail (exactly the one that is false for the real code).
 DOCUMENTED_NOT_MET = {
-    ("(a b) cse.0 cse.1, (a b), , 6 2 3, 6, None", True, False),
-    ("a ([c d]) [c d], a (), 4 6 2 3, None", False, True),
+    ("(a b) cse.0 cse.1, (a b), , 6 2 3, 6, None", True, False): ["fresh_ok"],          # D19
+    ("a ([c d]) [c d], a (), 4 6 2 3, None", False, True): ["root_dims_ok"],           # D20
 }
 
 
@@ -387,16 +388,29 @@ def run_cse_trees(ctx, w, S, M):
         if not c["filter_ok"]:
             # decidable form of the proved fact `cse_trees_is_cse_step`: must hold for every input whatsoever
             ctx.tie_broken("model:cse_filter_ok", f"a replacement of the model did not pass the filter for cse({render_forest(rec['roots'])!r}) [{src}]")
+        # work package cse2: the parts of `cseCheckReduced` (Solve/CseCheck2.lean).  `reduced -> check` is proved
+        # (`cseCheck_of_reduced`) for runs that do not raise; its decidable form must hold on every input whatsoever.
+        parts = [k for k in ("input_ok", "fresh_ok", "root_dims_ok", "overlap_ok") if not c[k]]
+        ctx.count(f"cse_reduced:{src}:" + ("ok" if c["reduced"] else "not-met:" + "+".join(parts)))
+        if real["ok"] and c["reduced"] and not c["check"]:
+            ctx.tie_broken("model:cse_reduced", f"cseCheckReduced holds but cseCheck does not for cse({render_forest(rec['roots'])!r}) [{src}]")
+        if src == "captured" and not (c["input_ok"] and c["overlap_ok"]):
+            # `inputOK` is a fact about the output of stage 2, `overlapOK` is believed to hold for every well-formed input
+            # (not proved): on a real call both must hold — also on the two defect inputs
+            ctx.tie_broken("premise:cse_reduced", f"{'+'.join(k for k in ('input_ok', 'overlap_ok') if not c[k])} does not hold for the real call "
+                           f"cse({render_forest(rec['roots'])!r}, cse_concat={rec['cse_concat']}, cse_in_brackets={rec['cse_in_brackets']})")
         if not c["check"]:
             why = [k for k in ("wf", "used_ok", "pairs_ok") if not c[k]]
             ctx.count(f"cse_check:{src}:not-met:" + "+".join(why))
             if src == "captured":
                 sig = (render_forest(rec["roots"]), rec["cse_concat"], rec["cse_in_brackets"])
                 uncovered.append({"cse_of": sig[0], "cse_concat": sig[1], "cse_in_brackets": sig[2], "failed": why,
-                                  "documented": sig in DOCUMENTED_NOT_MET})
+                                  "failed_reduced_parts": parts, "documented": sig in DOCUMENTED_NOT_MET})
                 if sig not in DOCUMENTED_NOT_MET:
-                    ctx.tie_broken("premise:cse_check", f"the side conditions of cseTrees_preserves_sols_partial ({'+'.join(why)}) do not hold for the real call "
+                    ctx.tie_broken("premise:cse_check", f"the side conditions of cseTrees_preserves_sols_partial ({'+'.join(why)}; reduced parts: {'+'.join(parts)}) do not hold for the real call "
                                    f"cse({sig[0]!r}, cse_concat={sig[1]}, cse_in_brackets={sig[2]})")
+                elif parts != DOCUMENTED_NOT_MET[sig]:
+                    ctx.tie_broken("premise:cse_check", f"the documented defect input cse({sig[0]!r}) fails {parts}, documented is {DOCUMENTED_NOT_MET[sig]}")
     ctx.extra["cse_check_not_met_on_captured_calls"] = uncovered[:20]
     if len(w.seen_cse) == 0:
         ctx.tie_broken("correspondence:cse_trees", "no call of stage2.cse was captured (the wrapper on the package attribute was never reached)")
